@@ -1005,43 +1005,24 @@ theorem sim_listingAll (h : Ctx env t) (hrt : keysRT env t = true) (p : Str) (wa
   | panic => exact sim_unspec _ _
   | hang => exact sim_unspec _ _
 
-theorem listOk_facts {p : Str} {all noLinks : Bool} (ho : listOkB env t p all noLinks = true) :
-    keysRT env t = true ∧ ∀ a, resolve env t p = .ok a →
-      (noLinks = true → ∀ k m, get t k = some m → isProperPrefix a k = true →
-        (all = true ∨ k.length = a.length + 1) → isLinkKind m.kind = false) := by
-  unfold listOkB at ho
-  rw [Bool.and_eq_true] at ho
-  refine ⟨ho.1, ?_⟩
-  intro a ha
-  have h2 := ho.2
-  rw [ha] at h2
-  simp only [Bool.or_eq_true, Bool.not_eq_true', List.all_eq_true] at h2
-  intro hn k m hm hp hal
-  rcases h2 with h3 | h3
-  · rw [hn] at h3; cases h3
-  · rcases h3 (k, m) (mem_of_alLookup hm) with h4 | h4
-    · exfalso
-      simp only [Bool.and_eq_false_iff, Bool.or_eq_false_iff, decide_eq_false_iff_not] at h4
-      rcases h4 with h5 | ⟨h5, h6⟩
-      · rw [hp] at h5; cases h5
-      · rcases hal with h7 | h7
-        · rw [h7] at h5; cases h5
-        · exact h6 h7
-    · exact h4
+theorem listOk_facts (ho : listOkB env t = true) : keysRT env t = true := ho
 
-def wkDirs (k : Kind) : Bool := decide (k = .dir) || decide (k = .link true)
-def wkFiles (k : Kind) : Bool := decide (k = .file) || decide (k = .link false)
+/-- node kinds the entry filters of `dirs` / `files` select: `is_dir()` / `is_file()` of the entry AND not a
+    link (the collecting loop skips links), i.e. exactly the node kind the reference selects -/
+def wkDirs (k : Kind) : Bool := decide (k = .dir)
+def wkFiles (k : Kind) : Bool := decide (k = .file)
 
 theorem hw_all : ∀ (k : FsPath) (n : Node) (e : SEntry), EntryFor k n e → wantAll e = (fun _ => true) n.kind :=
   fun _ _ _ _ => rfl
-theorem hw_dirs : ∀ (k : FsPath) (n : Node) (e : SEntry), EntryFor k n e → wantDirs e = wkDirs n.kind :=
-  fun _ _ _ he => he.dir
-theorem hw_files : ∀ (k : FsPath) (n : Node) (e : SEntry), EntryFor k n e → wantFiles e = wkFiles n.kind :=
-  fun _ _ _ he => he.file
-
-theorem wkDirs_nonlink {m : Node} (h : isLinkKind m.kind = false) : wkDirs m.kind = decide (m.kind = .dir) := by
-  unfold wkDirs; cases hk : m.kind <;> simp_all [isLinkKind]
-theorem wkFiles_nonlink {m : Node} (h : isLinkKind m.kind = false) : wkFiles m.kind = decide (m.kind = .file) := by
-  unfold wkFiles; cases hk : m.kind <;> simp_all [isLinkKind]
+theorem hw_dirs : ∀ (k : FsPath) (n : Node) (e : SEntry), EntryFor k n e → wantDirs e = wkDirs n.kind := by
+  intro _ n e he
+  unfold wantDirs wkDirs
+  rw [he.dir, he.link]
+  cases hk : n.kind <;> simp [isLinkKind]
+theorem hw_files : ∀ (k : FsPath) (n : Node) (e : SEntry), EntryFor k n e → wantFiles e = wkFiles n.kind := by
+  intro _ n e he
+  unfold wantFiles wkFiles
+  rw [he.file, he.link]
+  cases hk : n.kind <;> simp [isLinkKind]
 
 end Rivia.Lemmas.StdfsL
